@@ -82,6 +82,9 @@ impl Sym for char {
 impl Sym for () {
     fn sym() {}
 }
+impl<T> Sym for core::marker::PhantomData<T> {
+    fn sym() -> Self { core::marker::PhantomData }
+}
 impl<T: Sym> Sym for Option<T> {
     fn sym() -> Self {
         if bool::sym() { Some(T::sym()) } else { None }
